@@ -200,4 +200,45 @@ OverrideLaw(c) == \A i \in 1..Len(c.attrs) :
                     LET n == c.attrs[i].n IN Parts(c, n)[1] = c.attrs[i].v
 AppendLaw(c) == \A n \in SeqRange(Names(c)) :
                   Len(Parts(c, n)) = Len(Base(c, n)) + Cardinality({i \in 1..Len(c.kws) : c.kws[i].n = n})
+(* ------------- named deviations of the current implementation (KNOWN_FINDINGS) --- *)
+(* Each describes exactly what the code does on the matched shape; a result that     *)
+(* does not conform is a known finding only if it EQUALS the prediction.             *)
+KwOf(c, n) == Vals(SelectSeq(c.kws, LAMBDA e : e.n = n))
+\* append_attributes does `old += " " + new` on the raw values: a number on either side raises.
+\* (Repeated keywords are first joined among themselves with str(), so two or more keywords of a
+\* name form a string before they meet the base value.)
+DevNumAppend(c) == \E n \in SeqRange(Names(c)) :
+                     /\ Len(Base(c, n)) = 1 /\ Len(KwOf(c, n)) >= 1
+                     /\ \A i \in 1..Len(Parts(c, n)) : Textual(Parts(c, n)[i])
+                     /\ \/ Base(c, n)[1].t = "num"
+                        \/ Len(KwOf(c, n)) = 1 /\ KwOf(c, n)[1].t = "num"
+\* merge_repeated_kwargs remembers the position of a keyword in the ORIGINAL parameter list but uses
+\* it on the list from which earlier repeats were already dropped: a name first seen after an earlier
+\* repeat and repeated itself is written to the wrong slot (IndexError past the end, otherwise another
+\* parameter is overwritten and the name then occurs twice: TypeError "multiple values").
+DevRepeatShift(c) ==
+  \E p, q, r \in 1..Len(c.kws) :
+    /\ p < q /\ q < r
+    /\ \E p0 \in 1..(p - 1) : c.kws[p0].n = c.kws[p].n
+    /\ \A q0 \in 1..(q - 1) : c.kws[q0].n # c.kws[q].n
+    /\ c.kws[r].n = c.kws[q].n
+\* attribute names are entity-escaped but otherwise written as they are
+DevEmitText(items) ==
+  LET its == SelectSeq(items, LAMBDA it : it.kind \in {"bare", "val"}) IN
+  JoinSp([i \in 1..Len(its) |-> EmitOne([its[i] EXCEPT !.n = Escape(@)],
+                                         IF its[i].kind = "val" THEN CHOOSE v \in its[i].vals : TRUE ELSE "")])
+NoDev == [key |-> "", err |-> "", attrs |-> <<>>]
+DevAttrs(c, items) ==
+  IF DevRepeatShift(c) THEN [key |-> "repeated-keyword-after-earlier-repeat:IndexError-or-TypeError",
+                             err |-> "IndexError|TypeError", attrs |-> <<>>]
+  ELSE IF DevNumAppend(c) THEN [key |-> "append-number:TypeError", err |-> "TypeError", attrs |-> <<>>]
+  ELSE IF /\ \E i \in 1..Len(items) : items[i].cls = "unrep" /\ items[i].kind \in {"bare", "val"}
+          /\ \A i \in 1..Len(items) : Cardinality(items[i].vals) <= 1 /\ items[i].kind # "zone"
+  THEN [key |-> "attr-name-unrepresentable:written-unchecked", err |-> "",
+        attrs |-> ParseAttrs(DevEmitText(items)).attrs]
+  ELSE NoDev
+DevExplains(d, obs) == /\ d.key # ""
+                       /\ IF d.err = "IndexError|TypeError" THEN obs.err \in {"IndexError", "TypeError"}
+                          ELSE IF d.err # "" THEN obs.err = d.err
+                          ELSE obs.err = "" /\ ~obs.spill /\ obs.attrs = d.attrs
 =============================================================================
